@@ -303,3 +303,74 @@ case("c06-rearm-from-other-handler", "C06", "mutant", [(H + "signal_stage.py", "
                 reset_stage_for_retry(stage)
                 # WCP-24: Buffer the signal for later consumption""")], "C06.R2")
 case("c06-refactor-direct-write-under-guard", "C06", "refactor", [(H + "signal_stage.py", "                self.set_stage_status(stage, WorkflowStatus.RUNNING)", "                stage.status = WorkflowStatus.RUNNING")])
+
+# ------------------------------------------------------------------ C04 / C11
+SS = H + "start_stage/handler.py"
+case("c04-plan-before-claim", "C04", "mutant", [(SS, """        if stage.status == WorkflowStatus.RUNNING:
+            claim_expected_phase = "RUNNING"
+        else:""", """        self._plan_stage(stage)
+        if stage.status == WorkflowStatus.RUNNING:
+            claim_expected_phase = "RUNNING"
+        else:""")], "C04.R1")
+case("c04-claim-without-expected-phase", "C04", "mutant", [(SS, "txn.store_stage(stage, expected_phase=claim_expected_phase)", "txn.store_stage(stage)")], "C04.R")
+case("c04-loser-falls-through", "C04", "mutant", [(SS, """            logger.debug(
+                "Ignoring duplicate StartStage for %s (concurrent claim)",
+                stage.name,
+            )
+            return
+""", """            logger.debug(
+                "Ignoring duplicate StartStage for %s (concurrent claim)",
+                stage.name,
+            )
+""")], "C04.R")
+case("c04-phase-conjunct-dropped", "C04", "mutant", [("src/stabilize/persistence/sqlite/transaction.py", "WHERE id = :id AND version = :version AND status = :expected_phase", "WHERE id = :id AND version = :version")], "C04.R3")
+case("c04-join-fired-not-set-nofm", "C04", "mutant", [(SS, """        if stage.join_type == JoinType.N_OF_M:
+            stage.context["_join_fired"] = True""", """        if stage.join_type == JoinType.N_OF_M:
+            pass""")], "C04.R4")
+case("c04-fired-discriminator-ready-again", "C04", "mutant", [("src/stabilize/dag/readiness.py", """        return ReadinessResult(
+            phase=PredicatePhase.NOT_READY,
+            reason="Discriminator already fired, ignoring subsequent completions",
+        )""", """        pass""")], "C04.R4")
+case("c04-refactor-rename-claim-var", "C04", "refactor", [(SS, """            claim_expected_phase = "RUNNING"
+        else:
+            claim_expected_phase = "NOT_STARTED\"""", """            phase_ = "RUNNING"
+        else:
+            phase_ = "NOT_STARTED\""""), (SS, "txn.store_stage(stage, expected_phase=claim_expected_phase)", "txn.store_stage(stage, expected_phase=phase_)")])
+case("c11-mutex-claim-outside-txn", "C11", "mutant", [(SS, """                if stage.mutex_key and not txn.acquire_claim(
+                    message.execution_id,
+                    f"mutex:{stage.mutex_key}",
+                    stage.id,
+                    steal_if_owner_terminal=True,
+                ):
+                    raise _ClaimBlockedError("mutex")
+""", """                pass
+""")], "C11.R")
+case("c11-claim-after-store", "C11", "mutant", [(SS, """                txn.store_stage(stage, expected_phase=claim_expected_phase)
+        except _ClaimBlockedError as blocked:""", """                txn.store_stage(stage, expected_phase=claim_expected_phase)
+                txn.acquire_claim(message.execution_id, f"choice:{stage.deferred_choice_group}x", stage.id)
+        except _ClaimBlockedError as blocked:""")], "C11.R1")
+case("c11-steal-unconditional-update", "C11", "mutant", [("src/stabilize/persistence/sqlite/transaction.py", """                      AND claim_key = :claim_key
+                      AND stage_id = :owner_id""", """                      AND claim_key = :claim_key""")], "C11.R3")
+case("c11-steal-from-live-owner", "C11", "mutant", [("src/stabilize/persistence/sqlite/transaction.py", "            if owner_gone or owner_terminal:", "            if True:")], "C11.R3")
+case("c11-sweep-all-claims", "C11", "mutant", [("src/stabilize/persistence/sqlite/operations.py", "    terminal = [s.name for s in WorkflowStatus if s.is_complete]", "    terminal = [s.name for s in WorkflowStatus]")], "C11.R4")
+case("c11-choice-loser-plans", "C11", "mutant", [(SS, """                    txn.push_message(
+                        CancelStage(
+                            execution_type=message.execution_type,
+                            execution_id=message.execution_id,
+                            stage_id=message.stage_id,
+                        )
+                    )
+            return
+        except ConcurrencyError:""", """                    txn.push_message(
+                        CancelStage(
+                            execution_type=message.execution_type,
+                            execution_id=message.execution_id,
+                            stage_id=message.stage_id,
+                        )
+                    )
+        except ConcurrencyError:""")], "C11.R2")
+case("c11-siblings-not-cancelled", "C11", "mutant", [(SS, """        if stage.deferred_choice_group:
+            self._cancel_deferred_choice_siblings(stage, message)""", """        if stage.deferred_choice_group and False:
+            self._cancel_deferred_choice_siblings(stage, message)""")], "C11.R5")
+case("c11-migration-loses-pk", "C11", "mutant", [("src/stabilize/persistence/sqlite/migrations.py", """                claimed_at TEXT NOT NULL DEFAULT (datetime('now', 'utc')),
+                PRIMARY KEY (execution_id, claim_key)""", """                claimed_at TEXT NOT NULL DEFAULT (datetime('now', 'utc'))""")], "C11.R3")
